@@ -464,14 +464,45 @@ def compare_answers(ctx, kind, label, whole, chunk, window, guidmode, model=None
                       chunk=chunk.get(name), want=want)
 
 
+def _qual_parts(q):
+    out = []
+    for k in sorted(q or {}):
+        out += [str(k), str(sorted(str(x) for x in q[k]))]
+    return out
+
+
+def _digest_rest(kind, o):
+    """The strings a container class feeds into its computed guid AFTER the location (read from the object's public
+    attributes, in the order of the digest_object call); used only to explain a guid difference (K8)."""
+    kids = str(sorted(str(x) for x in o.children_guids))
+    if kind == "gene":
+        return [str(o.gene_id), str(o.gene_symbol), str(o.gene_type), str(o.locus_tag), str(o.sequence_name)] + _qual_parts(o.qualifiers) + [kids]
+    if kind == "fcoll":
+        return [str(o.feature_collection_name), str(o.feature_collection_id), str(o.feature_collection_type), str(sorted(str(x) for x in o.feature_types)),
+                str(o.locus_tag), str(o.sequence_name)] + _qual_parts(o.qualifiers) + [kids]
+    if kind == "coll":
+        return [str(o.name), str(o.sequence_name)] + _qual_parts(o.qualifiers) + [str(o.completely_within), kids]
+    return None
+
+
+def _md5_guid(parts):
+    h = hashlib.md5()
+    for x in parts:
+        h.update(x.encode("utf-8"))
+    return str(uuid.UUID(h.hexdigest()))
+
+
 def check_guid(ctx, kind, label, whole_obj, chunk_obj, supplied, window):
     wg, cg = str(whole_obj.guid), str(chunk_obj.guid)
     if supplied is not None:
         _chk(ctx, "twin.guid-supplied", wg == supplied and cg == supplied, key=(kind, "preserved"), label=label, window=list(window), supplied=supplied,
-                  whole=wg, chunk=cg)
+             whole=wg, chunk=cg)
+    elif wg == cg:
+        ctx.check("twin.guid-computed", True)
     else:
-        _chk(ctx, "twin.guid-computed", wg == cg, key=(kind, "computed-equal"), label=label, window=list(window), whole=wg, chunk=cg, klass=kind,
-                  chunk_location=str(chunk_obj.chunk_relative_location), whole_location=str(whole_obj.chunk_relative_location))
+        _chk(ctx, "twin.guid-computed", False, key=(kind, "computed-equal"), label=label, window=list(window), whole=wg, chunk=cg, klass=kind,
+             chunk_location=str(chunk_obj.chunk_relative_location), whole_location=str(whole_obj.chunk_relative_location),
+             rest_whole=_digest_rest(kind, whole_obj), rest_chunk=_digest_rest(kind, chunk_obj))
 
 
 def check_location(ctx, kind, label, obj, blocks, strand, cs, ce, stranded=True):
@@ -895,9 +926,7 @@ def run_coll_case(case, ctx):
             else:
                 compare_answers(ctx, "coll", label, wa, ans, (cs, ce), mode, {"start": 0, "end": glen, "strand": "+", "blocks": [(0, glen)]})
                 # the collection's own identifier is always computed; with explicit bounds it must not depend on the chunk
-                _chk(ctx, "twin.guid-computed", str(coll.guid) == str(W[mode].guid), key=("coll", "computed-equal"), label=label, window=[cs, ce],
-                          whole=str(W[mode].guid), chunk=str(coll.guid), klass="coll", guidmode=mode, chunk_location=str(coll.chunk_relative_location),
-                          whole_location=str(W[mode].chunk_relative_location))
+                check_guid(ctx, "coll", label, W[mode], coll, None, (cs, ce))
                 check_location(ctx, "coll", label, coll, [(0, glen)], "+", cs, ce)
                 check_sequences(ctx, "coll", label, coll, [(0, glen)], "+", genome, cs, ce, span=(0, glen))
             for gs in spec["genes"]:
@@ -1021,8 +1050,13 @@ def classify(v):
     mon = v["monitor"]
     win = d.get("window")
     # ---- K8: the computed identifier of a container digests its chunk-relative location -------------------------------
-    if mon == "twin.guid-computed" and d.get("klass") in ("gene", "fcoll", "coll"):
-        if d.get("whole") != d.get("chunk") and d.get("chunk_location") != d.get("whole_location"):
+    if mon == "twin.guid-computed" and d.get("klass") in ("gene", "fcoll", "coll") and isinstance(d.get("rest_whole"), list) and isinstance(d.get("rest_chunk"), list):
+        # recompute both identifiers as md5(str(chunk-relative location) + the other digest inputs): K8 iff both are reproduced and the
+        # inputs differ only in the location string (for a collection also in its children's guids, which are judged on their own)
+        rw, rc = d["rest_whole"], d["rest_chunk"]
+        same_rest = rw == rc or (d["klass"] == "coll" and rw[:-1] == rc[:-1])
+        if (same_rest and (d.get("chunk_location") != d.get("whole_location") or rw != rc)
+                and _md5_guid([d["whole_location"]] + rw) == d.get("whole") and _md5_guid([d["chunk_location"]] + rc) == d.get("chunk")):
             return K8
     if mon == "twin.chromosome-answers" and d.get("guidmode") == "computed":
         if d.get("only_guid_fields") and all(p.rsplit("/", 1)[-1] in ("gene_guid", "feature_collection_guid") for p in d.get("differing_paths") or ["x"]):
